@@ -84,7 +84,19 @@ class World(object):
             for k, v in items:
                 m[k] = materialize(v, self.cache)
             try:
-                if form == "opcode":
+                if form == "opcode_shared_dict":
+                    # several OpCode objects are built from one service-action dict (as the library's
+                    # tables do): each must own its own enumeration
+                    from pyscsi.pyscsi.scsi_opcode import OpCode
+
+                    shared = dict(m)
+                    e = OpCode("OP_A", 0x5E, shared).serviceaction
+                    e2 = OpCode("OP_B", 0x5E, shared).serviceaction
+                    if len(self.real) >= 4:
+                        del self.real[0], self.model[0]
+                    self.real.append(e2)
+                    self.model.append(dict(m))
+                elif form == "opcode":
                     # the service-action enumeration every OpCode object owns
                     from pyscsi.pyscsi.scsi_opcode import OpCode
 
@@ -182,6 +194,7 @@ def op_strategy():
         st.tuples(st.just("create"), st.just("dict"), items),
         st.tuples(st.just("create"), st.just("kwargs"), items.filter(lambda l: len(l) > 0)),
         st.tuples(st.just("create"), st.just("opcode"), st.one_of(st.just([]), items)),
+        st.tuples(st.just("create"), st.just("opcode_shared_dict"), st.one_of(st.just([]), items)),
         st.tuples(st.just("add"), idx, name_strategy(), value_strategy()),
         st.tuples(st.just("add"), idx, name_strategy(), value_strategy()),
         st.tuples(st.just("add_existing"), idx, idx, value_strategy()),
